@@ -442,7 +442,8 @@ Theorem lex_text_lines text bb bc msep (P : list char -> bool) :
      lexeme_sim text bb (S (List.length text)) msep (8 * (blen text + bb) + 64) l) ->
   P text = true ->
   let r := lex_text (mkCfg false msep) bb bc text in
-  lr_outcome r = None /\ lines_pos (lr_state r) /\ c_rest (s_cur (lr_state r)) = [].
+  lr_outcome r = None /\ lines_pos (lr_state r) /\ c_rest (s_cur (lr_state r)) = [] /\
+  (exists te tr, w_toks (s_buf (lr_state r)) = te :: tr /\ t_type te = T_EOF).
 Proof.
   intros Ptail classes Hmf. cbv zeta. unfold lex_text. cbn [dbg Base.msep].
   set (n := List.length text).
@@ -457,6 +458,6 @@ Proof.
   - reflexivity.
   - reflexivity.
   - fold n. rewrite Hrun.
-    destruct (Hfin (N.to_nat (s_nmodes s1))) as (s2 & Hf2 & _ & _ & _ & _ & _ & Hl2 & Hr2).
-    rewrite Hf2. cbn [lr_outcome lr_state]. split; [reflexivity|]. split; [exact Hl2|exact Hr2].
+    destruct (Hfin (N.to_nat (s_nmodes s1))) as (s2 & Hf2 & Heof & _ & _ & _ & _ & Hl2 & Hr2).
+    rewrite Hf2. cbn [lr_outcome lr_state]. split; [reflexivity|]. split; [exact Hl2|]. split; [exact Hr2|exact Heof].
 Qed.
